@@ -2,6 +2,7 @@
 //! two substitution engines, redex positions, normal-form predicates, positional strategy
 //! selectors, free-variable sets.  Used only to *find replayable failing inputs*.
 use lambda_calculus::*;
+use lambda_calculus::reduction::Order;
 use std::collections::BTreeSet;
 
 // ---------------------------------------------------------------- engine 1: de Bruijn shift/subst
